@@ -1527,6 +1527,13 @@ func (e *Entry) dup() *Entry {
 		ne.Extra[k] = v
 	}
 
+	// The list attributes are changed in place by deviations, so every
+	// copy needs its own.
+	if e.ListAttr != nil {
+		la := *e.ListAttr
+		ne.ListAttr = &la
+	}
+
 	return &ne
 }
 
